@@ -1,7 +1,8 @@
 (* C07 - The traced schema does not depend on sample order or repetition.
    Model: Trace/Tracer.v (trace, to_field, from_samples), compared with the crate on every run
    (exhaustive leaf pairs x 16 option sets, triples, nested shapes). *)
-From Verif Require Import Tracer Coerce Coerce_proofs CoerceTable CoerceTable_proofs TracerTablesSpec Null_proofs Struct_proofs Project_proofs FlatRecords_proofs Nested_order Nested_schema Nested_repeat.
+From Verif Require Import Tracer Coerce Coerce_proofs CoerceTable CoerceTable_proofs TracerTablesSpec Null_proofs Struct_proofs Project_proofs FlatRecords_proofs Shapes_proofs Nested_order Nested_schema Nested_repeat.
+Require Import Lia.
 From Coq Require Import Permutation.
 
 (* Full-strength statement (kept visible): evaluated on the implementation on every run by the
@@ -152,9 +153,12 @@ Proof. do 6 eexists. vm_compute. repeat split; reflexivity. Qed.
    anything): the same samples in ANY order give the same tracer - the same shape, the same primitive types and the same
    nullability at every position - whenever both orders trace; `teq` is equality up to the order of record fields (which is
    first-seen, C07_fields_in_first_seen_order) and the internal sample counters.  By induction on the depth from the leaf closed
-   form, trace_mark, the projection theorem for records and its analogue for sequences.  (Tuples, maps traced as maps and enum
-   variants are not in the class: they stay differential.  The class covers what serde_json::Value produces: objects, arrays,
-   strings, numbers, booleans and null.) *)
+   form, trace_mark, the projection theorem for records and its analogues for sequences, maps traced as maps (a key position and a
+   value position), tuples and tuple structs (one position per index) and enum variants (one position per variant index, the
+   variant names being part of the result).  The class covers what serde_json::Value produces (objects, arrays, strings, numbers,
+   booleans, null) and what derived Serialize implementations produce (structs, tuples, enums with unit / newtype / tuple /
+   struct variants, Option, Vec, maps).  Not in the class: positions at which the samples mix shapes (a struct at one sample and
+   a map at another - accepted by the crate - or shapes the crate rejects). *)
 Theorem C07_nested_order_independent : forall o n d vs vs' t t',
   Hom o n vs -> Permutation vs vs' ->
   trace_seq' o d vs (Ok (TUnknown false)) = Ok t -> trace_seq' o d vs' (Ok (TUnknown false)) = Ok t' -> teq t t'.
@@ -204,17 +208,75 @@ Example C07_json_example :
                   fs1 = fs2 /\ map sf_name fs1 = [b "a"; b "b"; b "c"].
 Proof.
   split.
-  - right. right. right. split; [reflexivity|]. exists [[(b "b", VInt I64 1); (b "a", VSeq [VUnit; VStr (b "x")])]; [(b "a", VUnit); (b "c", VMap [(VStr (b "z"), VBool true)])]].
+  - right. right. right. left. split; [reflexivity|]. exists [[(b "b", VInt I64 1); (b "a", VSeq [VUnit; VStr (b "x")])]; [(b "a", VUnit); (b "c", VMap [(VStr (b "z"), VBool true)])]].
     split; [reflexivity|]. split; [repeat constructor; cbn; intuition discriminate|]. intros k.
     destruct (bytes_eqb (b "b") k) eqn:E1; [apply bytes_eqb_eq in E1; subst k; left; vm_compute; eexists; reflexivity|].
     destruct (bytes_eqb (b "a") k) eqn:E2.
     { apply bytes_eqb_eq in E2. subst k. right. left. exists [[VUnit; VStr (b "x")]]. split; [reflexivity|]. left. vm_compute. eexists; reflexivity. }
     destruct (bytes_eqb (b "c") k) eqn:E3.
-    { apply bytes_eqb_eq in E3. subst k. right. right. right. split; [reflexivity|]. exists [[(b "z", VBool true)]]. split; [reflexivity|]. split; [repeat constructor; cbn; intuition discriminate|].
+    { apply bytes_eqb_eq in E3. subst k. right. right. right. left. split; [reflexivity|]. exists [[(b "z", VBool true)]]. split; [reflexivity|]. split; [repeat constructor; cbn; intuition discriminate|].
       intros k'. destruct (bytes_eqb (b "z") k') eqn:F1; [apply bytes_eqb_eq in F1; subst k'; left; vm_compute; eexists; reflexivity|].
       left. exists []. unfold vals. cbn [flat_map flookup]. rewrite F1. reflexivity. }
     left. exists []. unfold vals. cbn [flat_map flookup]. rewrite E1, E2, E3. reflexivity.
   - do 2 eexists. split; [vm_compute; reflexivity|]. split; [vm_compute; reflexivity|]. split; reflexivity.
+Qed.
+
+(* the projection theorems for the remaining shapes: the tracer of a child position is the result of tracing that child's values alone,
+   in the order of the samples *)
+Theorem C07_map_projection : forall o d kvss n0 t, o_map_as_struct o = false -> kvss <> [] ->
+  trace_seq' o d (map VMap kvss) (Ok (TUnknown n0)) = Ok t ->
+  exists kt vt, t = TMap n0 kt vt /\ trace_seq' o (S d) (mkeys kvss) (Ok (TUnknown false)) = Ok kt /\
+                trace_seq' o (S d) (mvals kvss) (Ok (TUnknown false)) = Ok vt.
+Proof. exact maps_projection. Qed.
+
+Theorem C07_tuple_projection : forall o d ls n0 t, ls <> [] ->
+  trace_seq' o d (map VTuple ls) (Ok (TUnknown n0)) = Ok t ->
+  exists F, t = TTuple n0 F /\ length F = maxlen ls /\ forall i, trace_seq' o (S d) (col i ls) (Ok (TUnknown false)) = Ok (nth_tracer F i).
+Proof. exact tuple_projection. Qed.
+
+(* variants: slot i is empty iff no sample has variant i; otherwise it carries the (common) name of the samples with variant i and the
+   tracer of their payloads *)
+Theorem C07_union_projection : forall o d cs n0 t, cs <> [] -> Forall (fun c => vpl c <> None) cs ->
+  trace_seq' o d cs (Ok (TUnknown n0)) = Ok t -> exists V, t = TUnion n0 V /\ UInv o d (pls cs) V.
+Proof. exact union_projection. Qed.
+
+(* non-vacuity on derived-type data: an enum with a newtype, a struct (holding a tuple) and a unit variant, and an Option around it *)
+Definition c07_e1 : Value := VStructVariant 1 (b "B") [(b "x", VTuple [VBool true; VStr (b "s")])].
+Definition c07_e2 : Value := VNewtypeVariant 0 (b "A") (VInt I32 1).
+Definition c07_e3 : Value := VSome (VUnitVariant 2 (b "C")).
+Example C07_enum_example :
+  Hom default_opts 3 [c07_e1; c07_e2; c07_e3; VNone] /\
+  (exists t t', trace_seq' default_opts 0 [c07_e1; c07_e2; c07_e3; VNone] (Ok (TUnknown false)) = Ok t /\
+                trace_seq' default_opts 0 [VNone; c07_e3; c07_e2; c07_e1] (Ok (TUnknown false)) = Ok t').
+Proof.
+  split.
+  - do 6 right. split; [repeat constructor; discriminate|].
+    replace (pls (cores [c07_e1; c07_e2; c07_e3; VNone]))
+      with [(1%Z, b "B", VStruct [(b "x", VTuple [VBool true; VStr (b "s")])]); (0%Z, b "A", VInt I32 1); (2%Z, b "C", VUnit)] by reflexivity.
+    intros i. destruct i as [|[|[|i]]].
+    + left. vm_compute. eexists; reflexivity.
+    + right. right. left. exists [[(b "x", VTuple [VBool true; VStr (b "s")])]]. split; [reflexivity|]. split; [repeat constructor; cbn; intuition discriminate|].
+      intros k. destruct (bytes_eqb (b "x") k) eqn:E1.
+      * apply bytes_eqb_eq in E1. subst k. do 5 right. left. exists [[VBool true; VStr (b "s")]]. split; [left; reflexivity|].
+        intros j. destruct j as [|[|[|j]]]; left; vm_compute; eexists; reflexivity.
+      * left. exists []. unfold vals. cbn [flat_map flookup map snd wsel]. rewrite E1. reflexivity.
+    + left. vm_compute. eexists; reflexivity.
+    + left. exists []. unfold wsel. cbn [flat_map]. repeat (match goal with |- context [Z.eqb ?a ?c] => destruct (Z.eqb_spec a c); [lia|] end). reflexivity.
+  - do 2 eexists. split; vm_compute; reflexivity.
+Qed.
+
+(* ... and on maps traced as maps *)
+Definition c07_mopts : Opts := {| o_allow_null := true; o_map_as_struct := false; o_large_list := true; o_large_utf8 := true; o_dict := false;
+                                  o_coerce := false; o_to_string := false; o_guess_dates := false; o_enums_str := false |}.
+Example C07_map_example :
+  Hom c07_mopts 1 [VMap [(VStr (b "k"), VInt I32 1)]; VMap []; VMap [(VStr (b "j"), VNone)]] /\
+  (exists t t', trace_seq' c07_mopts 0 [VMap [(VStr (b "k"), VInt I32 1)]; VMap []; VMap [(VStr (b "j"), VNone)]] (Ok (TUnknown false)) = Ok t /\
+                trace_seq' c07_mopts 0 [VMap [(VStr (b "j"), VNone)]; VMap []; VMap [(VStr (b "k"), VInt I32 1)]] (Ok (TUnknown false)) = Ok t').
+Proof.
+  split.
+  - do 4 right. left. split; [reflexivity|]. exists [[(VStr (b "k"), VInt I32 1)]; []; [(VStr (b "j"), VNone)]]. split; [reflexivity|].
+    split; left; vm_compute; eexists; reflexivity.
+  - do 2 eexists. split; vm_compute; reflexivity.
 Qed.
 
 (* "repeating samples changes nothing", for nested data: tracing a collection of the class Hom twice over succeeds whenever tracing it
@@ -238,6 +300,9 @@ Example C07_nested_schema_example :
                   map sf_name fs1 = [b "id"; b "tags"; b "pos"; b "items"] /\ map sf_name fs2 = [b "tags"; b "id"; b "items"; b "pos"].
 Proof. do 2 eexists. vm_compute. repeat split; reflexivity. Qed.
 
+Print Assumptions C07_map_projection.
+Print Assumptions C07_tuple_projection.
+Print Assumptions C07_union_projection.
 Print Assumptions C07_leaf_perm_partial.
 Print Assumptions C07_leaf_success_order_free_partial.
 Print Assumptions C07_coerce_arms_match_model.
